@@ -4,10 +4,11 @@ MonitoredItem::tick (monitored_item.rs) and Subscriptions::expire_stale_publish_
 the `retain` closure becomes the in-place filter loop it stands for), with chrono as environment: a difference of two
 timestamps is a signed number of milliseconds and `to_std()` fails exactly when it is negative.
 
-Proved for every pair of timestamps (client supplied, or a wall clock that moved backwards): no panic; the publishing
-interval counts as elapsed exactly when the non-negative part of now - last reaches it; a queued publish request stays
-queued exactly while the non-negative part of now - timestamp does not exceed its timeout, every other one is answered
-once, and nothing else leaves the queue."""
+Proved for every pair of timestamps (client supplied, or a wall clock that moved backwards): no panic; every BadTimeout
+fault that expire_stale_publish_requests adds to the response queue answers a queued request whose timeout has elapsed since
+its timestamp (non-negative part of now - timestamp above the timeout). The contract says "only after", as the property does:
+the first two functions carry no postcondition beyond panic freedom, and the invariant of the filter loop speaks of what is
+left to look at and of the answers made so far, not of which requests were kept."""
 from extract import *
 
 PID = 'C26'
@@ -76,6 +77,12 @@ impl DateTime {
     #[verifier::external_body]
     pub fn now() -> (r: DateTime) { unimplemented!() }
 }
+// From<chrono::DateTime<Utc>> for DateTime
+impl vstd::std_specs::convert::FromSpecImpl<DateTimeUtc> for DateTime {
+    open spec fn obeys_from_spec() -> bool { true }
+    open spec fn from_spec(v: DateTimeUtc) -> DateTime { DateTime { ms: v.ms } }
+}
+impl From<DateTimeUtc> for DateTime { fn from(v: DateTimeUtc) -> (r: DateTime) { DateTime { ms: v.ms } } }
 pub struct RequestHeader { pub timestamp: DateTime, pub timeout_hint: u32, pub request_handle: u32 }
 pub struct PublishRequest { pub request_header: RequestHeader }
 pub struct PublishRequestEntry { pub request_id: u32, pub request: PublishRequest }
@@ -123,24 +130,27 @@ pub open spec fn timeout_us(r: PublishRequestEntry, server_timeout: i64) -> int 
 pub open spec fn still_waiting(r: PublishRequestEntry, now: DateTimeUtc, server_timeout: i64) -> bool {
     elapsed_us(now, DateTimeUtc { ms: r.request.request_header.timestamp.ms }) <= timeout_us(r, server_timeout)
 }
+pub open spec fn is_timeout(e: PublishResponseEntry) -> bool {
+    e.response.fault is Some && e.response.fault->Some_0.response_header.service_result == StatusCode::BadTimeout
+}
+// `e` answers one of the first `done` requests of the queue, and that request's timeout has elapsed
+pub open spec fn answered_late(q0: Seq<PublishRequestEntry>, done: int, e: PublishResponseEntry, now: DateTimeUtc, server_timeout: i64) -> bool {
+    exists|i: int| 0 <= i < done && (#[trigger] q0[i]).request_id == e.request_id && !still_waiting(q0[i], now, server_timeout)
+}
 '''
 
 SPEC = {
-    'test_and_set_publishing_interval_elapsed': ('r', '''        ensures
-            r == (elapsed_us(*now, old(self).last_time_publishing_interval_elapsed) >= spec_duration_from_ms(old(self).publishing_interval).us),
-            r ==> final(self).last_time_publishing_interval_elapsed.ms == now.ms,
-            !r ==> final(self).last_time_publishing_interval_elapsed.ms == old(self).last_time_publishing_interval_elapsed.ms,'''),
-    'tick': ('r', '''        ensures old(self).monitoring_mode == MonitoringMode::Disabled ==> r == TickResult::NoChange,'''),
+    # C26 asks of these two only that no timestamp makes them panic (what they answer is the business of C22/C24)
+    'test_and_set_publishing_interval_elapsed': ('r', '''        ensures true,'''),
+    'tick': ('r', '''        ensures true,'''),
     'expire_stale_publish_requests': (None, '''        requires old(self).publish_request_queue@.len() + old(self).publish_response_queue@.len() <= usize::MAX,
         ensures
-            final(self).publish_request_timeout == old(self).publish_request_timeout,
-            // exactly the requests whose timeout has not elapsed since their (client supplied) timestamp stay queued, in order
-            final(self).publish_request_queue@ == old(self).publish_request_queue@.filter(
-                |r: PublishRequestEntry| still_waiting(r, *now, old(self).publish_request_timeout)),
-            // every other one is answered, once
-            final(self).publish_response_queue@.len() == old(self).publish_response_queue@.len()
-                + old(self).publish_request_queue@.len() - final(self).publish_request_queue@.len(),
-            final(self).publish_response_queue@.subrange(0, old(self).publish_response_queue@.len() as int) == old(self).publish_response_queue@,'''),
+            // a BadTimeout answer that was not there before answers a queued request whose timeout has elapsed since its
+            // (client supplied) timestamp
+            forall|j: int| 0 <= j < final(self).publish_response_queue@.len() && is_timeout(#[trigger] final(self).publish_response_queue@[j])
+                ==> old(self).publish_response_queue@.contains(final(self).publish_response_queue@[j])
+                    || answered_late(old(self).publish_request_queue@, old(self).publish_request_queue@.len() as int,
+                                     final(self).publish_response_queue@[j], *now, old(self).publish_request_timeout),'''),
 }
 
 CANARY = '''
@@ -173,19 +183,30 @@ def build(manifest):
         g = splice_at(g, r'^\s*let mut idx_request: usize = 0;', '''        let ghost q0 = self.publish_request_queue@;
         let ghost mut done: int = 0;''', before=True)
         g = splice_loop(g, 0, '''            invariant 0 <= done <= q0.len(), idx_request <= self.publish_request_queue@.len(), q0 == old(self).publish_request_queue@,
-                self.publish_request_timeout == old(self).publish_request_timeout, publish_request_timeout == old(self).publish_request_timeout,
+                publish_request_timeout == old(self).publish_request_timeout,
                 self.publish_response_queue@ == old(self).publish_response_queue@,
-                idx_request == q0.subrange(0, done).filter(|r: PublishRequestEntry| still_waiting(r, *now, old(self).publish_request_timeout)).len(),
-                self.publish_request_queue@ == q0.subrange(0, done).filter(|r: PublishRequestEntry| still_waiting(r, *now, old(self).publish_request_timeout))
-                    + q0.subrange(done, q0.len() as int),
-                expired_publish_responses@.len() == done - idx_request,
+                // what is still to be looked at is the rest of the queue as it was
+                self.publish_request_queue@.subrange(idx_request as int, self.publish_request_queue@.len() as int) == q0.subrange(done, q0.len() as int),
+                forall|j: int| 0 <= j < expired_publish_responses@.len() && is_timeout(#[trigger] expired_publish_responses@[j])
+                    ==> answered_late(q0, done, expired_publish_responses@[j], *now, old(self).publish_request_timeout),
             decreases q0.len() - done,''')
+        g = splice_at(g, r'^\s*let request = &self\.publish_request_queue\[idx_request\];', '''            proof {
+                let ghost rest = self.publish_request_queue@.subrange(idx_request as int, self.publish_request_queue@.len() as int);
+                assert(rest.len() == q0.len() - done);
+                assert(rest[0] == q0[done]);
+            }
+            let ghost len0 = self.publish_request_queue@.len();''', before=True)
         g = splice_at(g, r'^\s*if keep_request \{', '''            proof {
-                assert(q0.subrange(0, done + 1).drop_last() =~= q0.subrange(0, done));
-                reveal_with_fuel(Seq::filter, 2);
+                let ghost a = self.publish_request_queue@;
+                let ghost rest = a.subrange(idx_request as int, len0 as int);
+                assert(rest == q0.subrange(done, q0.len() as int));
+                assert(a.subrange(idx_request as int + 1, len0 as int) =~= rest.subrange(1, rest.len() as int));
+                assert(q0.subrange(done, q0.len() as int).subrange(1, rest.len() as int) =~= q0.subrange(done + 1, q0.len() as int));
                 done = done + 1;
             }''', before=True)
-        g = splice_at(g, r'^\s*self\.publish_response_queue\s*$', '        proof { assert(q0.subrange(0, q0.len() as int) =~= q0); }', before=True)
+        g = splice_at(g, r'^\s*self\.publish_response_queue\s*$', '''        proof {
+            assert(self.publish_request_queue@.subrange(idx_request as int, self.publish_request_queue@.len() as int).len() == q0.len() - done);
+        }''', before=True)
     f['expire_stale_publish_requests'] = g
     types = '\n'.join([
         en.enum('MonitoringMode'),
